@@ -209,6 +209,18 @@ def r14_2_index_kinds(ctx, rule: str = 'R14.2', rule_enum: str = 'R06.1', rule_s
                                         f.loc(), construct=_fn(f)))
             continue
         fn = _fn(f)
+        # containers with a len(idx) extent
+        for n in ast.walk(f.node):
+            if isinstance(n, ast.Assign) and len(n.targets) == 1 and isinstance(n.targets[0], ast.Name):
+                v = n.value
+                if isinstance(v, ast.Call) and ast.unparse(v.func) in ('np.zeros', 'np.empty', 'np.ones') and v.args:
+                    shape = v.args[0]
+                    dims = shape.elts if isinstance(shape, ast.Tuple) else [shape]
+                    if dims and all(_is_len_of(d, sc.idx) for d in dims):
+                        sc.pos_containers[n.targets[0].id] = n
+                if isinstance(v, ast.ListComp) and len(v.generators) == 1 and isinstance(v.generators[0].iter, ast.Name) \
+                        and v.generators[0].iter.id == sc.idx and not (isinstance(v.elt, ast.Tuple)):
+                    sc.pos_containers[n.targets[0].id] = n
         # the selection keeps the caller's order: `idx` is only ever re-bound to an order-preserving copy of itself.  A
         # sorting / de-duplicating normalisation (np.unique, sorted, set) changes which train comes first in a pair and
         # where a train's row sits in a matrix - for an antisymmetric measure that flips signs
@@ -227,21 +239,13 @@ def r14_2_index_kinds(ctx, rule: str = 'R14.2', rule_enum: str = 'R06.1', rule_s
                            + ('; this function feeds an order-sensitive (antisymmetric) measure, so a non-ascending selection flips signs'
                               if sens else '; results for the selected trains no longer correspond to the positions the caller named'))
                     obs.append(violation(rule, t, f.loc(n), key=f"{fn}::selection-reordered::{fnm}", detail=det))
+                    if rule_enum != rule and sc.pos_containers:
+                        # the same fact as an obligation of the pair enumeration (rows / columns of a matrix and the entries of
+                        # a value list are laid out by position in the selection)
+                        obs.append(violation(rule_enum, t, f.loc(n), key=f"{fn}::selection-reordered::{fnm}", detail=det))
                 else:
                     obs.append(inconclusive(rule, t, f.loc(n), f"`{ast.unparse(n)[:80]}`: unknown normalisation of the selection",
                                             construct=f"{fn}::selection-order"))
-        # containers with a len(idx) extent
-        for n in ast.walk(f.node):
-            if isinstance(n, ast.Assign) and len(n.targets) == 1 and isinstance(n.targets[0], ast.Name):
-                v = n.value
-                if isinstance(v, ast.Call) and ast.unparse(v.func) in ('np.zeros', 'np.empty', 'np.ones') and v.args:
-                    shape = v.args[0]
-                    dims = shape.elts if isinstance(shape, ast.Tuple) else [shape]
-                    if dims and all(_is_len_of(d, sc.idx) for d in dims):
-                        sc.pos_containers[n.targets[0].id] = n
-                if isinstance(v, ast.ListComp) and len(v.generators) == 1 and isinstance(v.generators[0].iter, ast.Name) \
-                        and v.generators[0].iter.id == sc.idx and not (isinstance(v.elt, ast.Tuple)):
-                    sc.pos_containers[n.targets[0].id] = n
         # pair lists
         for n in ast.walk(f.node):
             if isinstance(n, ast.Assign) and len(n.targets) == 1 and isinstance(n.targets[0], ast.Name) and \
